@@ -3,7 +3,10 @@ package main
 import (
 	"encoding/binary"
 	"fmt"
+	"math"
+	"math/big"
 	"reflect"
+	"sort"
 
 	"github.com/datastax/go-cassandra-native-protocol/datacodec"
 	"github.com/datastax/go-cassandra-native-protocol/datatype"
@@ -186,6 +189,211 @@ func largeCollections(res *lp.Result, prop string) {
 					res.Add(lp.Finding{Kind: "violation", What: "an element longer than 1 MiB is decoded to other bytes: " + c.name, Input: id,
 						Impl: fmt.Sprintf("byte strings decoded: sizes %v, expected one of %d bytes", sizes, n)})
 				}
+			}
+		}
+	}
+}
+
+// usedDestinationsAndExtremes (C11, C12, C14): cases of the value codecs that need a particular circumstance rather than a particular
+// type — written directly against the specification's bytes.
+//  (a) a destination that is IN USE (a slice/array/map/struct filled by the previous row): after decoding, it must hold what the
+//      bytes denote — in particular a NULL element puts nil/zero into its slot;
+//  (b) more than 1024 elements that are all NULL (4 bytes each in v3+);
+//  (c) every unsigned Go integer type at 2^(w-1) and 2^w − 1 as a varint source, against the specification's two's-complement bytes.
+func usedDestinationsAndExtremes(res *lp.Result, prop string) {
+	be32 := func(k int) []byte { return binary.BigEndian.AppendUint32(nil, uint32(k)) }
+	null := be32(-1)
+	i32 := func(v int32) []byte { return append(be32(4), be32(int(v))...) }
+	str := func(t string) []byte { return append(be32(len(t)), t...) }
+	cat := func(bs ...[]byte) []byte {
+		var o []byte
+		for _, b := range bs {
+			o = append(o, b...)
+		}
+		return o
+	}
+	p32 := func(v int32) *int32 { return &v }
+	listInt, _ := datacodec.NewList(datatype.NewList(datatype.Int))
+	setStr, _ := datacodec.NewSet(datatype.NewSet(datatype.Varchar))
+	tup, _ := datacodec.NewTuple(datatype.NewTuple(datatype.Int, datatype.Varchar, datatype.Int))
+	udtT, _ := datatype.NewUserDefined("ks", "t", []string{"a", "b", "c"}, []datatype.DataType{datatype.Int, datatype.Varchar, datatype.Int})
+	udtC, _ := datacodec.NewUserDefined(udtT)
+	type S struct {
+		A *int32  `cassandra:"a"`
+		B *string `cassandra:"b"`
+		C *int32  `cassandra:"c"`
+	}
+	x, y := "x", "y"
+	listBytes := cat(be32(3), i32(7), null, i32(9))
+	setBytes := cat(be32(3), str("a"), null, str("c"))
+	tupBytes := cat(i32(7), null, i32(9))
+	type tc struct {
+		name  string
+		codec datacodec.Codec
+		bytes []byte
+		dest  interface{} // pointer to a destination in use
+		want  string      // fmt %v of the dereferenced leaves after decoding
+	}
+	show := func(v interface{}) string {
+		var w func(rv reflect.Value) string
+		w = func(rv reflect.Value) string {
+			for rv.IsValid() && (rv.Kind() == reflect.Ptr || rv.Kind() == reflect.Interface) {
+				if rv.IsNil() {
+					return "nil"
+				}
+				rv = rv.Elem()
+			}
+			if !rv.IsValid() {
+				return "nil"
+			}
+			switch rv.Kind() {
+			case reflect.Slice, reflect.Array:
+				o := "["
+				for i := 0; i < rv.Len(); i++ {
+					o += w(rv.Index(i)) + " "
+				}
+				return o + "]"
+			case reflect.Struct:
+				o := "{"
+				for i := 0; i < rv.NumField(); i++ {
+					o += w(rv.Field(i)) + " "
+				}
+				return o + "}"
+			case reflect.Map:
+				var ks []string
+				for _, k := range rv.MapKeys() {
+					ks = append(ks, fmt.Sprint(k.Interface())+":"+w(rv.MapIndex(k)))
+				}
+				sort.Strings(ks)
+				return fmt.Sprint(ks)
+			}
+			return fmt.Sprint(rv.Interface())
+		}
+		return w(reflect.ValueOf(v))
+	}
+	cases := []tc{
+		{"list<int> [7,NULL,9] into a []*int32 holding [1,2,3]", listInt, listBytes, &[]*int32{p32(1), p32(2), p32(3)}, "[7 nil 9 ]"},
+		{"list<int> [7,NULL,9] into a []int32 holding [1,2,3]", listInt, listBytes, &[]int32{1, 2, 3}, "[7 0 9 ]"},
+		{"list<int> [7,NULL,9] into a [3]int32 holding [1,2,3]", listInt, listBytes, &[3]int32{1, 2, 3}, "[7 0 9 ]"},
+		{"list<int> [7,NULL,9] into a []interface{} holding [1,2,3]", listInt, listBytes, &[]interface{}{1, 2, 3}, "[7 nil 9 ]"},
+		{"set<varchar> [a,NULL,c] into a []*string holding [x,y,x]", setStr, setBytes, &[]*string{&x, &y, &x}, "[a nil c ]"},
+		{"set<varchar> [a,NULL,c] into a [3]string holding [x,y,x]", setStr, setBytes, &[3]string{"x", "y", "x"}, "[a  c ]"},
+		{"tuple (7,NULL,9) into a []interface{} holding (1,y,3)", tup, tupBytes, &[]interface{}{int32(1), "y", int32(3)}, "[7 nil 9 ]"},
+		{"tuple (7,NULL,9) into a [3]interface{} holding (1,y,3)", tup, tupBytes, &[3]interface{}{int32(1), "y", int32(3)}, "[7 nil 9 ]"},
+		{"udt <7,NULL,9> into a struct holding <1,y,3>", udtC, tupBytes, &S{p32(1), &y, p32(3)}, "{7 nil 9 }"},
+		{"udt <7,NULL,9> into a map[string]interface{} holding <1,y,3>", udtC, tupBytes, &map[string]interface{}{"a": int32(1), "b": "y", "c": int32(3)}, "[a:7 b:nil c:9]"},
+	}
+	for _, c := range cases {
+		for _, ver := range []primitive.ProtocolVersion{primitive.ProtocolVersion3, primitive.ProtocolVersion5} {
+			id := fmt.Sprintf("%s %s, version %v, bytes %x", prop, c.name, ver, c.bytes)
+			res.Case(id, true)
+			res.Count("destination-in-use")
+			// a copy of the destination in use, so that both versions start from the same content
+			d := reflect.New(reflect.TypeOf(c.dest).Elem())
+			d.Elem().Set(reflect.ValueOf(c.dest).Elem())
+			if d.Elem().Kind() == reflect.Slice {
+				cp := reflect.MakeSlice(d.Elem().Type(), d.Elem().Len(), d.Elem().Len())
+				reflect.Copy(cp, d.Elem())
+				d.Elem().Set(cp)
+			}
+			if d.Elem().Kind() == reflect.Map {
+				cp := reflect.MakeMap(d.Elem().Type())
+				for _, k := range d.Elem().MapKeys() {
+					cp.SetMapIndex(k, d.Elem().MapIndex(k))
+				}
+				d.Elem().Set(cp)
+			}
+			var err error
+			if p := guard(func() { _, err = c.codec.Decode(c.bytes, d.Interface(), ver) }); p != nil {
+				res.Add(lp.Finding{Kind: "violation", What: "codec panics: Decode into a destination in use: " + p.words, Input: id})
+				continue
+			}
+			if err != nil {
+				res.Add(lp.Finding{Kind: "violation", What: "bytes in the specification's format refused when decoded into a destination in use", Input: id, Impl: firstWords(err.Error())})
+				continue
+			}
+			if got := show(d.Interface()); got != c.want {
+				res.Add(lp.Finding{Kind: "violation", What: "a destination in use does not hold the decoded value afterwards (a NULL element left the old content in its slot)", Input: id,
+					Impl: "destination holds " + got, Model: "the bytes denote " + c.want})
+			}
+		}
+	}
+	// (b) more than 1024 NULL elements
+	for _, n := range []int{1024, 1025, 5000} {
+		for _, ver := range []primitive.ProtocolVersion{primitive.ProtocolVersion3, primitive.ProtocolVersion4} {
+			id := fmt.Sprintf("%s list<int> of %d NULL elements, version %v", prop, n, ver)
+			res.Case(id, true)
+			res.Count("many-null-elements")
+			src := make([]*int32, n)
+			enc, err := listInt.Encode(src, ver)
+			spec := be32(n)
+			for i := 0; i < n; i++ {
+				spec = append(spec, null...)
+			}
+			if err != nil {
+				res.Add(lp.Finding{Kind: "violation", What: "a list of NULL elements is refused by the encoder", Input: id, Impl: firstWords(err.Error())})
+				continue
+			}
+			if string(enc) != string(spec) && prop == "C12" {
+				res.Add(lp.Finding{Kind: "violation", What: "encoded bytes differ from the specification's format: list of NULL elements", Input: id})
+			}
+			var back []*int32
+			if _, err := listInt.Decode(spec, &back, ver); err != nil {
+				res.Add(lp.Finding{Kind: "violation", What: "a list of more than 1024 NULL elements in the specification's format is refused by the decoder", Input: id, Impl: firstWords(err.Error())})
+				continue
+			}
+			ok := len(back) == n
+			for _, e := range back {
+				ok = ok && e == nil
+			}
+			if !ok {
+				res.Add(lp.Finding{Kind: "violation", What: "NULL elements of a large list do not survive the round trip", Input: id, Impl: fmt.Sprint(len(back), " elements")})
+			}
+		}
+	}
+	// (c) unsigned sources at the top of their range → varint
+	specVar := func(v uint64) []byte { // minimal two's complement of a non-negative number
+		b := new(big.Int).SetUint64(v).Bytes()
+		if len(b) == 0 || b[0]&0x80 != 0 {
+			b = append([]byte{0}, b...)
+		}
+		return b
+	}
+	for _, v := range []uint64{1<<63 - 1, 1 << 63, 1<<63 + 1, 1<<64 - 1, 1 << 31, 1<<32 - 1, 1 << 15, 1<<16 - 1, 128, 255} {
+		srcs := []interface{}{v, &v}
+		if v <= math.MaxUint32 {
+			w := uint32(v)
+			srcs = append(srcs, w, &w)
+		}
+		if uint64(uint(v)) == v {
+			w := uint(v)
+			srcs = append(srcs, w, &w)
+		}
+		if v <= math.MaxUint16 {
+			w := uint16(v)
+			srcs = append(srcs, w, &w)
+		}
+		if v <= math.MaxUint8 {
+			w := uint8(v)
+			srcs = append(srcs, w, &w)
+		}
+		for _, src := range srcs {
+			id := fmt.Sprintf("%s varint from %T %d", prop, src, v)
+			res.Case(id, true)
+			res.Count("unsigned-extremes")
+			enc, err := datacodec.Varint.Encode(src, primitive.ProtocolVersion4)
+			if err != nil {
+				res.Add(lp.Finding{Kind: "violation", What: "varint refuses an unsigned Go value", Input: id, Impl: firstWords(err.Error())})
+				continue
+			}
+			if string(enc) != string(specVar(v)) {
+				res.Add(lp.Finding{Kind: "violation", What: "encoded bytes differ from the specification's format: varint from an unsigned Go value at the top of its range", Input: id,
+					Impl: fmt.Sprintf("%x", enc), Model: fmt.Sprintf("%x", specVar(v))})
+				continue
+			}
+			back := new(big.Int)
+			if _, err := datacodec.Varint.Decode(enc, back, primitive.ProtocolVersion4); err != nil || back.Cmp(new(big.Int).SetUint64(v)) != 0 {
+				res.Add(lp.Finding{Kind: "violation", What: "value does not round-trip: varint from an unsigned Go value", Input: id, Impl: fmt.Sprint(back, err)})
 			}
 		}
 	}
